@@ -123,3 +123,15 @@ func TestC14(t *testing.T) {
 		return c
 	})
 }
+
+// TestC14Race is the C14 sweep in an executor built with the race detector.
+func TestC14Race(t *testing.T) {
+	runProp(t, "C14", func(t *rapid.T) *core.Case {
+		c := drawFaultCase(t)
+		if len(c.Series) > 30 {
+			c.Series = c.Series[:30]
+		}
+		c.Mode = "race"
+		return c
+	})
+}
